@@ -100,7 +100,7 @@ def classify(e, names):
             # the listed finding: `cs.year() - last_year_` in MakeTime with a negative last_year_
             return "%s:%s:undefined-behaviour:civil-year-near-int64-max" % (k, src)
         return "%s:%s:undefined-behaviour" % (k, src)
-    if src == "ancient-dst-zone" and e["e"] in ("Make", "Convert", "RT2") and "cs" in e and from_limbs(e["cs"][0]) > 2038:
+    if src == "ancient-dst-zone" and e["e"] in ("Make", "Convert") and "cs" in e and from_limbs(e["cs"][0]) > 2038:
         # the listed finding concerns civil times up to the 2038 sentinel (the static stretch after the generated table);
         # later civil years are answered through the year shift and are right on the pinned tree
         return "%s:%s:wrong-result:civil-year-after-2038" % (k, src)
